@@ -125,7 +125,7 @@ def confirm_kadj(rep, results, pid):
     cases = []
     rnd = random.Random(int(os.environ.get("VERIF_SEED", "0") or 0))
     # an undecided policy obligation (error, unsupported construct, solver timeout) has no model to replay: every validity pattern
-    # of the six conventional hours x the interval configurations of the named methods (and a custom Fajr interval) instead
+    # of the six conventional hours x the interval configurations of the named methods instead
     base = {"Fajr": 4.5, "Shurooq": 6.0, "Dhuhr": 12.1, "Asr": 15.5, "Maghrib": 18.2, "Isha": 19.6}
     for x in results:
         if not x.get("inconclusive") and getattr(rep, "tier", "quick") != "thorough":
@@ -137,9 +137,14 @@ def confirm_kadj(rep, results, pid):
         for mask in range(64):
             if mask & 4 == 0:          # Dhuhr always exists
                 continue
-            for intF, intI in ((0.0, 0.0), (0.0, 90.0), (20.0, 0.0), (20.0, 90.0)):
+            # interval configurations of the property's quantifier only (named methods: no Fajr interval; an Isha interval of 0 or 90 min,
+            # and 0 only under the policies that consume the interval themselves) - the judge's clauses are the solver obligations' clauses,
+            # which are stated (and hold on the unchanged tree) for exactly these
+            consuming = pol in ("HalfOfNightFajrIshaAlways", "HalfOfNightFajrIshaInvalid", "MinutesFromMaghribFajrIshaInvalid")
+            for intF, intI in (((0.0, 0.0),) if consuming else ((0.0, 0.0), (0.0, 90.0))):
                 hh = {k: (base[k] + rnd.uniform(-0.3, 0.3) if mask >> n & 1 else None) for n, k in enumerate(SIX)}
-                cases.append(kadj_case({"policy": pol, "hours": hh, "angF": rnd.uniform(9, 21), "angI": rnd.uniform(9, 21),
+                # a named method that defines Isha by an interval has Isha angle 0 (assumption A1 of C08/C10 depends on it)
+                cases.append(kadj_case({"policy": pol, "hours": hh, "angF": rnd.uniform(9, 21), "angI": (0.0 if intI else rnd.uniform(9, 21)),
                                         "intF": intF, "intI": intI, "near_lat": rnd.choice([48.5, 45.0, -48.5])}))
     if not cands and not cases:
         return False
